@@ -37,14 +37,20 @@ Fields(ks) == [i \in DOMAIN ks |-> FieldOf(ks[i], i)]
 Flat(ks)   == <<"dc", "K", Fields(ks), <<>> >>
 \* fields 1..s in a base class, the rest in the subclass
 Split(ks, s) == <<"dc", "K", Fields(ks), << <<"bases", << <<"dc", "B", SubSeq(Fields(ks), 1, s), <<>> >> >> >> >> >>
-\* the subclass re-declares field 1 with another default (same position, new default)
-Override(ks) == LET fs == Fields(ks)
-                    nf == [fs EXCEPT ![1] = <<FN(1), <<"int">>, <<"val", I(99)>>, <<>> >>] IN
-                <<"dc", "K", nf, << <<"bases", << <<"dc", "B", fs, <<>> >> >> >>, <<"redeclared", <<FN(1)>> >> >> >>
-
+\* the subclass re-declares field 1 (same position) as a plain-valued field of kind k2: the ancestor's
+\* init / kw_only / default / nullability must NOT survive the re-declaration
+ReField(k2) == IF k2 = "val" THEN <<FN(1), <<"int">>, <<"val", I(99)>>, <<>> >>
+               ELSE <<FN(1), <<"opt", <<"int">> >>, <<"val", I(98)>>, <<>> >>
+Override(ks, k2) == LET fs == Fields(ks)
+                        nf == [fs EXCEPT ![1] = ReField(k2)] IN
+                    <<"dc", "K", nf, << <<"bases", << <<"dc", "B", fs, <<>> >> >> >>, <<"redeclared", <<FN(1)>> >> >> >>
+Overrides == { Override(ks, k2) : ks \in { l \in Layouts : l[1] \in {"req", "val", "optnone", "noinit", "kwval", "kwreq"} }, k2 \in {"val", "optval"} }
+\* after the re-declaration field 1 is positional with a default: every later positional field needs one too
+WellFormedCls(c) == \A j \in 2..Len(DcFields(c)) :
+                       (GetOpt(FOpts(DcFields(c)[j]), "kw_only", FALSE) \/ ~FInit(DcFields(c)[j])) \/ FDflt(DcFields(c)[j])[1] # "req"
 Classes == { Flat(ks) : ks \in Layouts }
            \cup { Split(ks, s) : ks \in { l \in Layouts : Len(l) >= 2 }, s \in 1..(MaxLen - 1) }
-           \cup { Override(ks) : ks \in { l \in Layouts : l[1] = "val" } }
+           \cup { c \in Overrides : WellFormedCls(c) }
 Good(f) == IF FType(f) = IntL THEN L(<<I(8), I(9)>>) ELSE I(40)
 
 \* per field: 0 absent, 1 explicit value, 2 explicit null
